@@ -67,6 +67,13 @@ Definition stable_sort_by {A} (key : A -> N) (l : list A) : list A :=
 Fixpoint insert_str (x : str) (l : list str) : list str :=
   match l with [] => [x] | y :: l' => if str_ltb x y then x :: l else y :: insert_str x l' end.
 Definition sort_strs (l : list str) : list str := fold_right insert_str [] l.
+(* strictly ascending in code-point order (Python's str ordering): sorted AND duplicate-free *)
+Fixpoint ascending (l : list str) : Prop :=
+  match l with
+  | a :: ((b :: _) as r) => str_ltb a b = true /\ ascending r
+  | _ => True
+  end.
+
 
 Definition expand_repeated (items : attrs) : attrs :=
   flat_map (fun kv => match snd kv with
